@@ -277,9 +277,6 @@ func runC19(cfg *config, res *monitor.Result) {
 	targets = append(targets, cfg.targets(true)...)
 	targets = append(targets, cfg.targets(false)...)
 	for ti, t := range targets {
-		if t.pkg.Fast && len(t.pkg.Exts[t.md.FullName()]) > 0 {
-			continue
-		}
 		kind := "plain-" + t.pkg.Flavour
 		if t.pkg.Fast {
 			kind = "fast-" + t.pkg.Flavour
